@@ -50,8 +50,8 @@ def expected_fields(dev, r, family):
     if family == "type1":
         on = r["on"]
         exp["power_consumption"] = i_ite(on, r["watts"], 0)
-        exp["remaining_time"] = ("onoff", on, iso_units(r["remaining_s"]), "00:00:00")
-        exp["auto_shutdown"] = iso_units(r["auto_s"])
+        exp["remaining_time"] = ("onoff", on, ("iso", r["remaining_s"]), "00:00:00")
+        exp["auto_shutdown"] = ("iso", r["auto_s"])
         exp["electric_current"] = ("onoff", on, ("amps", r["watts"]), 0.0)
         exp["device_state"] = ("enum2", on, dev.DeviceState.ON, dev.DeviceState.OFF)
     if family == "runner":
@@ -67,6 +67,27 @@ def expected_fields(dev, r, family):
         exp["target_temperature"] = r["target"]
         exp["remote_id"] = SymSeq("str", list(r["remote"].items))
     return exp
+
+
+def iso_ok(actual, secs):
+    """actual is the text HH:MM:SS of `secs` seconds (0 <= secs < 86400): checked by reading the digits back
+    (3600*HH + 60*MM + SS == secs, MM < 60, SS < 60), independent of how the code split the number"""
+    if isinstance(actual, str):
+        actual = SymSeq.of(actual)
+    if not isinstance(actual, SymSeq) or actual.kind != "str" or actual.has_blob() or actual.stripnul or len(actual.items) != 8:
+        return False
+    it = actual.items
+    conds = [sym_eq(it[2] if isinstance(it[2], int) else SymInt.from_unsigned(unit_term(it[2])), 58),
+             sym_eq(it[5] if isinstance(it[5], int) else SymInt.from_unsigned(unit_term(it[5])), 58)]
+    digs = []
+    for k in (0, 1, 3, 4, 6, 7):
+        u = it[k]
+        d = (u - 48) if isinstance(u, int) else (SymInt.from_unsigned(unit_term(u)) - 48)
+        conds.append(b_and(d >= 0, d <= 9))
+        digs.append(d)
+    hh, mm, ss = digs[0] * 10 + digs[1], digs[2] * 10 + digs[3], digs[4] * 10 + digs[5]
+    conds += [mm <= 59, ss <= 59, i_eq(hh * 3600 + mm * 60 + ss, secs)]
+    return b_and(*conds)
 
 
 def amps_ok(actual, w):
@@ -89,6 +110,8 @@ def field_ok(actual, e):
     if isinstance(e, tuple):
         if e[0] == "amps":
             return amps_ok(actual, e[1])
+        if e[0] == "iso":
+            return iso_ok(actual, e[1])
         if e[0] == "onoff":
             _, on, von, voff = e
             return b_and(b_implies(on, field_ok(actual, von)), b_implies(b_not(on), field_ok(actual, voff)))
